@@ -19,7 +19,7 @@ ID = 'C14'
 LEVEL = 'exploration'
 PAR = 12
 RULE = ('call histories (1..5 calls of expect / expect_exact / expect_list, markers at random list positions, windows) on '
-        'three twin fdspawn objects on pipes: all blocking, all awaited (async_=True), mixed per call. The same delivery units '
+        'three twin objects (fdspawn on pipes; for a subset spawn on real pty children, where EOF is the exit of the child): all blocking, all awaited (async_=True), mixed per call. The same delivery units '
         'are released to each twin at the same logical points: units written while no call is outstanding (before the first '
         'call, between calls - they coalesce in the kernel), units released one by one whenever existing_data/new_data '
         'reported "no match yet", several units at once, EOF alone or together with the last data. Outcomes (index | '
@@ -30,7 +30,7 @@ ASSUMPTIONS = ['the release points are wrappers on Expecter.existing_data / new_
                'TIMEOUTs are produced deterministically (no unit left for the call, T = 0.1 s); a twin difference must '
                'reproduce in two further serial runs',
                '_async_pre_await.py is not importable on this interpreter and is not exercised']
-REQUIRED = ['histories', 'calls_compared', 'awaited_calls', 'blocking_calls', 'mixed_objects', 'eof_calls', 'timeout_calls',
+REQUIRED = ['histories', 'pty_histories', 'calls_compared', 'awaited_calls', 'blocking_calls', 'mixed_objects', 'eof_calls', 'timeout_calls',
             'prewritten_units', 'timeout0_subchecks']
 
 T = 0.1
@@ -120,6 +120,80 @@ class Twin(object):
             os.close(self.r)
         except OSError:
             pass
+
+
+class PtyTwin(Twin):
+    """The same, on a real pty child (the puppet): EOF is the child's exit, which the asyncio transport
+    reports through connection_lost(EIO)."""
+
+    def __init__(self, enc, name):
+        from ..workloads.puppetctl import Puppet
+        self.name = name
+        self.pup = Puppet()
+        self.child = pexpect.spawn(self.pup.argv[0], self.pup.argv[1:], encoding=enc, timeout=T, maxread=262144)
+        self.pup.wait_ready()
+        self.queue = []
+        self.released = 0
+        self.w = True            # "peer still connected"
+        self.r = None
+        TWINS[id(self.child)] = self
+
+    def _put(self, data):
+        from ..workloads.puppetctl import fd_readable
+        self.pup.write(data)
+        fd_readable(self.child.child_fd, 5)
+
+    def _end(self):
+        if self.w:
+            self.w = None
+            self.pup.exit(0)
+
+    def release(self):
+        while self.queue:
+            u = self.queue.pop(0)
+            self.released += 1
+            if u == 'EOF':
+                self._end()
+                return
+            if isinstance(u, list):
+                for x in u:
+                    if x == 'EOF':
+                        self._end()
+                    elif self.w:
+                        self._put(x)
+                return
+            if self.w:
+                self._put(u)
+            return
+
+    def prewrite(self, units):
+        for u in units:
+            if self.w:
+                self._put(u)
+
+    def cleanup(self, loop):
+        TWINS.pop(id(self.child), None)
+        try:
+            if self.child.async_pw_transport:
+                self.child.async_pw_transport[1].close()
+        except Exception:
+            pass
+        if loop is not None:
+            try:
+                loop.run_until_complete(asyncio.sleep(0))
+            except Exception:
+                pass
+        try:
+            self.child.close(force=True)
+        except Exception:
+            pass
+        try:
+            import signal
+            if self.pup.pid:
+                os.kill(self.pup.pid, signal.SIGKILL)
+        except OSError:
+            pass
+        self.pup.cleanup()
 
 
 def conv_unit(u, enc):
@@ -245,7 +319,11 @@ def one(case, acc):
     enc = case['enc']
     loop = asyncio.new_event_loop()
     asyncio.set_event_loop(loop)
-    twins = [Twin(enc, 'blocking'), Twin(enc, 'awaited'), Twin(enc, 'mixed')]
+    if case.get('pty'):
+        acc.count('pty_histories')
+        twins = [PtyTwin(enc, 'blocking'), PtyTwin(enc, 'awaited'), PtyTwin(enc, 'mixed')]
+    else:
+        twins = [Twin(enc, 'blocking'), Twin(enc, 'awaited'), Twin(enc, 'mixed')]
     acc.count('mixed_objects')
     try:
         multi = False
@@ -367,5 +445,10 @@ def run_shard(spec, acc):
                         guarded({'t0': True, 'enc': enc, 'op': op, 'readable': readable, 'pending': pending}, acc)
         return
     rng = G.rng_for(spec['seed'], spec['shard'], 14)
-    for _ in range(spec['n']):
-        confirmed(gen_case(rng), guarded, acc)
+    for i in range(spec['n']):
+        case = gen_case(rng)
+        if i % 12 == 5:
+            case['pty'] = True        # a subset on real pty children (EOF = exit, connection_lost(EIO) on the asyncio side)
+            if case['enc'] is None:
+                pass
+        confirmed(case, guarded, acc)
